@@ -56,6 +56,7 @@ package routers
 //@   checks [routed] isnil(result2) ==> (exists m string, cu flows.CategoryUUID, m2 string {caseMatched(r, operand, m, cu), routedTo(r.baseRouter, categoryUUID, m2, result1, result0)} :: caseMatched(r, operand, m, cu) && routedTo(r.baseRouter, categoryUUID, m2, result1, result0) && (cu != "" ==> (categoryUUID == cu && m2 == m)) && ((cu == "" && r.defaultCategoryUUID != "") ==> categoryUUID == r.defaultCategoryUUID) && ((cu == "" && r.defaultCategoryUUID == "") ==> (categoryUUID == "" && result0 == "")))
 //@   checks [operand_text] isnil(result2) ==> result1 == operandAsStr
 //@   ensures [some_category] isnil(result2) ==> (exists cu flows.CategoryUUID, m string {routedTo(r.baseRouter, cu, m, result1, result0)} :: routedTo(r.baseRouter, cu, m, result1, result0))
+//@   ensures [by_cases] isnil(result2) ==> (exists op types.XValue, m string, cu flows.CategoryUUID {caseMatched(r, op, m, cu)} :: caseMatched(r, op, m, cu))
 
 //@ func (r *baseRouter) RouteTimeout
 //@   forget getText
